@@ -337,7 +337,8 @@ def corruptions(e, rnd):
 def main(ctx):
     quick = ctx.tier == "quick"
     # ---- 1. the model -------------------------------------------------------
-    r = ctx.model_check("MC_Wavefront", "MC_Wavefront.cfg", workers=8, timeout=300 if quick else 600)
+    r = ctx.model_check("MC_Wavefront", "MC_Wavefront_quick.cfg" if quick else "MC_Wavefront.cfg", workers=12,
+                        timeout=300 if quick else 900)
     counts = r.prints("COUNTS")
     ctx.extra["model_cases"] = counts[-1][1:] if counts else []
     # ---- 2. code -> spec ------------------------------------------------------
